@@ -283,6 +283,10 @@ pub fn finish_report(res: Option<Report>, out: verif_simrt::Outcome) -> Report {
         r.violate("deadlock", d.clone());
     }
     for (t, m) in &out.thread_panics {
+        if m.contains("VERIF-INTENTIONAL") {
+            // a scenario thread that panics on purpose (unwinding drops its handles)
+            continue;
+        }
         if *t != 0 {
             r.violate("thread_panic", format!("simulated thread t{t} panicked: {m}"));
         } else if r.violation.is_none() && r.harness_error.is_none() {
@@ -352,7 +356,8 @@ fn exec_sched(sc: &Scenario) -> Report {
             .threads
             .iter()
             .flatten()
-            .all(|o| o.k != "dec" && !(o.k == "inc" && o.n0() > (1 << 40)));
+            .all(|o| o.k != "dec" && !(o.k == "inc" && o.n0() > (1 << 40)))
+            && sc.c("stores_only") != 1;
         let violations: Arc<std::sync::Mutex<Vec<(String, String)>>> = Arc::new(std::sync::Mutex::new(vec![]));
         let mut expected: u64 = 0;
         // (the amounts are small: no saturation, so that the order does not matter)
@@ -415,7 +420,24 @@ fn exec_sched(sc: &Scenario) -> Report {
             Some(sh) => sh.position(),
             None => pb.position(),
         };
-        if fin != expected {
+        if sc.c("stores_only") == 1 {
+            // only absolute stores ran (set_position / finish / reset, in any interleaving): the
+            // final position is the value of whichever store came last
+            let mut allowed: Vec<u64> = vec![0];
+            for o in sc.threads.iter().flatten() {
+                match o.k.as_str() {
+                    "set_position" => allowed.push(o.n0()),
+                    "finish" => allowed.push(sc.c("len0")),
+                    _ => {}
+                }
+            }
+            if !allowed.contains(&fin) {
+                r.violate(
+                    "C07.position_model",
+                    format!("after concurrent absolute stores position() = {fin}, a value nobody stored (stored: {allowed:?})"),
+                );
+            }
+        } else if fin != expected {
             r.violate(
                 "C07.lost_update",
                 format!("after all threads joined position() = {fin}, wrapping sum of all inc/dec = {expected}"),
@@ -464,6 +486,9 @@ fn run_thread_ops(
                 r
             }
             "dec" => call(|| h.dec(a)),
+            "set_position" => call(|| h.set_position(a)),
+            "finish" => call(|| h.finish()),
+            "reset" => call(|| h.reset()),
             "inc_length" => call(|| h.inc_length(a)),
             "dec_length" => call(|| h.dec_length(a)),
             "tick" => call(|| h.tick()),
@@ -622,6 +647,28 @@ impl Check for C07 {
                 Tier::Thorough => rng.range(2, 8),
             };
             let wrapping = rng.chance(1, 5);
+            if rng.chance(1, 6) {
+                // absolute stores only: every interleaving ends with the value of some store
+                sc.set("stores_only", 1);
+                let mut threads = vec![];
+                let mut v = 1u64;
+                for _ in 0..nt {
+                    let mut ops = vec![];
+                    for _ in 0..rng.range(1, 6) {
+                        v += rng.range(1, 1000);
+                        ops.push(match rng.below(8) {
+                            0 => Op::new("finish"),
+                            1 => Op::new("reset"),
+                            2 => Op::new("get"),
+                            _ => Op::new("set_position").n(v),
+                        });
+                    }
+                    threads.push(ops);
+                }
+                sc.threads = threads;
+                gen_sched_cfg(&mut sc, rng, 60 * nt);
+                return sc;
+            }
             let mut threads = vec![];
             for _ in 0..nt {
                 let n = rng.range(1, if tier == Tier::Quick { 8 } else { 20 });
